@@ -4,6 +4,7 @@ import Req.Client.CompressLegacy
 import Req.Client.CompressReader
 import Req.Client.CompressAttempts
 import Req.Client.CompressFormats
+import Req.Client.CompressClose
 /-! Driver lanes of C14. -/
 namespace Req.Driver.L.C14
 open Req.Proto Req.Compress
@@ -196,6 +197,24 @@ def laneDec : List String → String
     | _, _ => "bad-op"
   | _ => "bad-op"
 
+
+/-- `c14close <alg> <ops: r|c, comma separated>` → `body=<times the underlying Body.Close was
+called> waits=<did any Close wait for the body>` after the reads and closes, on a fresh wrapper. -/
+def laneClose : List String → String
+  | [alg, ops] =>
+    let a : Option Alg :=
+      if alg == "gzip" then some .gzip else if alg == "deflate" then some .deflate
+      else if alg == "br" then some .br else if alg == "zstd" then some .zstd else none
+    let os : Option (List HOp) := (if ops == "-" then [] else ops.splitOn ",").mapM fun o =>
+      if o == "r" then some HOp.read else if o == "c" then some HOp.close else none
+    match a, os with
+    | some a, some os =>
+      let waits := (List.range os.length).any fun i =>
+        os.getD i .read == .close && closeWaits a (runOps closeOf a .fresh (os.take i))
+      "body=" ++ toString (runOps closeOf a .fresh os).bodyCloses ++ " waits=" ++ (if waits then "1" else "0")
+    | _, _ => "bad-op"
+  | _ => "bad-op"
+
 def lanes : List (String × (List String → String)) := [
   ("c14select", laneSelect),
   ("c14x", exchange false),
@@ -203,6 +222,7 @@ def lanes : List (String × (List String → String)) := [
   ("c14seq", sequence),
   ("c14enc", laneEnc),
   ("c14dec", laneDec),
+  ("c14close", laneClose),
   ("c14reader", laneReader)
 ]
 
